@@ -61,3 +61,13 @@ check("C05",
       "build directories, and the property is evaluated directly on the real output.",
       "Trusted: Lean kernel; translator (thresholds, tail length); gethostname and config-derived names are parameters; glibc printf formats; the harness.",
       "DESIGN.md#c05")
+
+check("C18",
+      "Lean 4 proof: HH:MM:SS round trip, threshold iff, shell total = C total on every step file, nearest-tenth size rounding; differential run of robsd-report and bash duration_total",
+      "Proof over the Report model: format_duration round trip for 0 <= d < 2^40 (HH:MM:SS, MM,SS < 60, recombines to d); the delta is appended exactly when "
+      "its magnitude exceeds the threshold (60 s generated from the source for the total, 0 for a step) with the right sign; the shell duration_total / "
+      "regress_duration_total equal steps_total_duration on every list of rows in every mode; a size line exists iff the change reaches 1 MiB (1 KiB for bsd.rd); "
+      "the printed size is the exact quotient rounded to the nearest tenth. Model compared byte for byte with robsd-report and with bash duration_total; "
+      "Duration:/Size: lines also compared with an independent Python rendition.",
+      "Trusted: Lean kernel; translator (thresholds); glibc %.01f on exact binary quotients; bash arithmetic for ksh; harness.",
+      "DESIGN.md#c18")
